@@ -637,6 +637,7 @@ static Plan gen_plan(const string &cfg, uint64_t seed, long long index) {
         p.ops.push_back(inv);
         int nf = 1 + (int)sim_below(&w, 3);
         bool many = sim_below(&w, 30) == 0;
+        bool huge = sim_below(&w, 40) == 0;        // lines far beyond the usual sizes, in several files of one invocation
         if (many) {     // boundary values on the NUMBER of file operands (argv handling, per-file state, descriptors)
             static const int NF[] = { 15, 16, 17, 31, 32, 33, 63, 64, 65, 66, 100, 127, 128, 129, 255, 256, 257 };
             nf = NF[sim_below(&w, 17)];
@@ -647,6 +648,15 @@ static Plan gen_plan(const string &cfg, uint64_t seed, long long index) {
             if (lc < 8) nl = 0; else if (lc < 50) nl = 1 + (int)sim_below(&w, 5); else nl = 1 + (int)sim_below(&w, 40);
             if (many) nl = (int)sim_below(&w, 3);
             vector<Op> lines;
+            if (huge && sim_below(&w, 3) != 0) {
+                static const size_t HL[] = { 16383, 16384, 16385, 20000, 32768, 65535, 65536, 65537, 70000, 100000, 131072 };
+                Op lo; lo.k = "LINE"; size_t n = HL[sim_below(&w, 11)];
+                lo.s = sim_below(&w, 3) ? rnd_ascii(w, n) : rnd_utf8(w, n);
+                if (sim_below(&w, 4) == 0) for (size_t i = 0; i < lo.s.size(); i += 1 + sim_below(&w, 400)) lo.s[i] = (char)(1 + sim_below(&w, 31));
+                lo.t = (int)sim_below(&w, 2);
+                lines.push_back(lo);
+                if (nl > 6) nl = 6;
+            }
             for (int l = 0; l < nl; l++) { Op lo = gen_line(w, longw); if (crlf_bias == 1) lo.t = 1; else if (crlf_bias == 2 && sim_below(&w, 2)) lo.t = 1; lines.push_back(lo); }
             if (!lines.empty() && sim_below(&w, 100) < 30) lines.back().t = 2;    // no final newline
             string data; vector<size_t> ends; vector<size_t> interesting;      // offsets where a chunk boundary is "interesting"
